@@ -2,6 +2,7 @@
   C06 — per-test settings resolve by the documented precedence, setting by setting.
   Property theorems only.
 -/
+import NextestModel.Gen.Tables
 import NextestModel.Model.Settings
 namespace NextestModel.C06
 open NextestModel.Settings
@@ -247,5 +248,10 @@ theorem cli_retries_wins (filesLowToHigh : List File) (name : String) (builtin :
 /-! ## Non-vacuity -/
 example : WF [⟨[("default", ⟨[], []⟩), ("ci", ⟨[⟨true, true, true, true, [(.retries, 3)]⟩], []⟩)]⟩] := by
   intro f hf; simp at hf; subst hf; decide
+
+/-- **the forced retry policy travels unchanged from the command line to the attempt loop** (imp.rs and executor.rs, as read on this
+    run): handed on as given — `--retries 0` included —, and in `run_test_instance` it replaces the test's own policy, which gives
+    both the number of attempts and the delays; `cli_retries_wins` is about exactly this value -/
+theorem forced_retries_wiring_is_the_models : ∀ r ∈ Gen.retryWiring, r.2 = true := by decide
 
 end NextestModel.C06
